@@ -31,15 +31,15 @@ func vrtHarness_C16_packTCP() {
 		sizes := []int{100, 8186, 8187, 8188, 8189, 8190, 8191, 8192, 9000}
 		m = vrtMsgOfSize(sizes[vrtChoiceNative(len(sizes))])
 	}
-	wire, err := m.Pack()
-	vrtAssume(err == nil)
-	want := append([]byte(nil), wire...)
 	b, err := PackTCPBuffer(m)
 	if err != nil {
 		vrtCover("pack error", true)
 		vrtAssert("error returns no buffer", b == nil)
 		return
 	}
+	wire, err := m.Pack()
+	vrtAssume(err == nil)
+	want := append([]byte(nil), wire...)
 	vrtCover("framed", true)
 	f := *b
 	vrtAssert("frame is two bytes longer than the wire image", len(f) == len(want)+2)
